@@ -218,6 +218,8 @@ pub struct Setup {
     pub as_mode: AsMode,
     pub geoip_mode: GeoIpMode,
     pub geoip_file: Option<String>,
+    /// the bytes of a MaxMind DB to load with `GeoIpLookup::from_file` (None: the empty lookup, seeded through the hook)
+    pub geoip_db: Option<Vec<u8>>,
     /// the target of trace t is the sentinel address 90 + t (C18) instead of 203.0.113.x
     pub target_sentinel: bool,
 }
@@ -234,9 +236,98 @@ impl Default for Setup {
             as_mode: AsMode::Asn,
             geoip_mode: GeoIpMode::Off,
             geoip_file: None,
+            geoip_db: None,
             target_sentinel: false,
         }
     }
+}
+
+/// One record of the generated GeoIP database.
+#[derive(Clone, Default)]
+pub struct GeoRec {
+    pub lat: Option<f64>,
+    pub long: Option<f64>,
+    pub radius: Option<u16>,
+    pub city: Option<String>,
+    pub sub: Option<String>,
+    pub sub_code: Option<String>,
+    pub country: Option<String>,
+    pub country_code: Option<String>,
+    pub continent: Option<String>,
+}
+
+/// A well-formed MaxMind DB (format 2.0, GeoLite2-City layout, IPv4, 24-bit records) keyed on the FIRST octet of the address:
+/// a complete 8-level search tree (255 nodes) whose leaves point at the record `rec(first_octet)` or at "not found".
+/// With it the lookups of the views go through the real `maxminddb` reader and the real cache of `GeoIpLookup`.
+pub fn first_octet_mmdb(rec: &dyn Fn(u8) -> Option<GeoRec>) -> Vec<u8> {
+    fn st(out: &mut Vec<u8>, s: &str) {
+        assert!(s.len() < 29);
+        out.push(0x40 | s.len() as u8);
+        out.extend_from_slice(s.as_bytes());
+    }
+    fn map(out: &mut Vec<u8>, n: usize) { out.push(0xe0 | n as u8); }
+    fn u16v(out: &mut Vec<u8>, v: u16) { out.push(0xa0 | 2); out.extend_from_slice(&v.to_be_bytes()); }
+    fn u32v(out: &mut Vec<u8>, v: u32) { out.push(0xc0 | 4); out.extend_from_slice(&v.to_be_bytes()); }
+    fn u64v(out: &mut Vec<u8>, v: u64) { out.push(8); out.push(9 - 7); out.extend_from_slice(&v.to_be_bytes()); }
+    fn f64v(out: &mut Vec<u8>, v: f64) { out.push(0x60 | 8); out.extend_from_slice(&v.to_be_bytes()); }
+    fn names(out: &mut Vec<u8>, n: &str) { st(out, "names"); map(out, 1); st(out, "en"); st(out, n); }
+    const NODES: u32 = 255;
+    // the data section first (offsets are needed by the tree)
+    let mut data = vec![];
+    let mut off: Vec<Option<u32>> = vec![None; 256];
+    for v in 0..=255u8 {
+        let Some(r) = rec(v) else { continue };
+        off[usize::from(v)] = Some(data.len() as u32);
+        let nsec = usize::from(r.city.is_some()) + usize::from(r.sub.is_some() || r.sub_code.is_some()) + usize::from(r.country.is_some() || r.country_code.is_some())
+            + usize::from(r.continent.is_some()) + usize::from(r.lat.is_some() || r.long.is_some() || r.radius.is_some());
+        map(&mut data, nsec);
+        if let Some(c) = &r.city { st(&mut data, "city"); map(&mut data, 1); names(&mut data, c); }
+        if r.sub.is_some() || r.sub_code.is_some() {
+            st(&mut data, "subdivisions");
+            data.push(1); data.push(11 - 7); // array of one
+            map(&mut data, usize::from(r.sub.is_some()) + usize::from(r.sub_code.is_some()));
+            if let Some(c) = &r.sub_code { st(&mut data, "iso_code"); st(&mut data, c); }
+            if let Some(c) = &r.sub { names(&mut data, c); }
+        }
+        if r.country.is_some() || r.country_code.is_some() {
+            st(&mut data, "country");
+            map(&mut data, usize::from(r.country.is_some()) + usize::from(r.country_code.is_some()));
+            if let Some(c) = &r.country_code { st(&mut data, "iso_code"); st(&mut data, c); }
+            if let Some(c) = &r.country { names(&mut data, c); }
+        }
+        if let Some(c) = &r.continent { st(&mut data, "continent"); map(&mut data, 1); names(&mut data, c); }
+        if r.lat.is_some() || r.long.is_some() || r.radius.is_some() {
+            st(&mut data, "location");
+            map(&mut data, usize::from(r.lat.is_some()) + usize::from(r.long.is_some()) + usize::from(r.radius.is_some()));
+            if let Some(x) = r.radius { st(&mut data, "accuracy_radius"); u16v(&mut data, x); }
+            if let Some(x) = r.lat { st(&mut data, "latitude"); f64v(&mut data, x); }
+            if let Some(x) = r.long { st(&mut data, "longitude"); f64v(&mut data, x); }
+        }
+    }
+    let mut db = vec![];
+    for level in 0..8u32 {
+        for p in 0..(1u32 << level) {
+            for bit in 0..2u32 {
+                let child = p * 2 + bit;
+                let val = if level < 7 { (1u32 << (level + 1)) - 1 + child } else { off[child as usize].map_or(NODES, |o| NODES + 16 + o) };
+                db.extend_from_slice(&val.to_be_bytes()[1..]);
+            }
+        }
+    }
+    db.extend_from_slice(&[0; 16]);
+    db.extend_from_slice(&data);
+    db.extend_from_slice(b"\xab\xcd\xefMaxMind.com");
+    map(&mut db, 9);
+    st(&mut db, "binary_format_major_version"); u16v(&mut db, 2);
+    st(&mut db, "binary_format_minor_version"); u16v(&mut db, 0);
+    st(&mut db, "build_epoch"); u64v(&mut db, 1_700_000_000);
+    st(&mut db, "database_type"); st(&mut db, "GeoLite2-City");
+    st(&mut db, "description"); map(&mut db, 1); st(&mut db, "en"); st(&mut db, "generated");
+    st(&mut db, "ip_version"); u16v(&mut db, 4);
+    st(&mut db, "languages"); db.push(1); db.push(11 - 7); st(&mut db, "en");
+    st(&mut db, "node_count"); u32v(&mut db, NODES);
+    st(&mut db, "record_size"); u16v(&mut db, 24);
+    db
 }
 
 pub struct Sut {
@@ -291,7 +382,18 @@ pub fn mk_sut(setup: &Setup) -> Sut {
         .enumerate()
         .map(|(i, t)| TraceInfo::new(t.clone(), format!("target{i}.example")))
         .collect();
-    let app = TuiApp::new(cfg, dns, GeoIpLookup::empty(), infos);
+    let geo = match &setup.geoip_db {
+        None => GeoIpLookup::empty(),
+        Some(bytes) => {
+            static N: std::sync::atomic::AtomicUsize = std::sync::atomic::AtomicUsize::new(0);
+            let f = std::env::temp_dir().join(format!("htui-{}-{}.mmdb", std::process::id(), N.fetch_add(1, std::sync::atomic::Ordering::SeqCst)));
+            std::fs::write(&f, bytes).expect("write mmdb");
+            let g = GeoIpLookup::from_file(&f, "en".to_string()).expect("generated MaxMind DB must load");
+            let _ = std::fs::remove_file(&f);
+            g
+        }
+    };
+    let app = TuiApp::new(cfg, dns, geo, infos);
     Sut { app, tracers }
 }
 
